@@ -361,7 +361,10 @@ pub fn apply(img: &mut Vec<u8>, p: &Parsed, c: &Corr) -> Option<String> {
             Some(format!("truncate to {}", to))
         }
         Target::Extend => {
-            let extra = match c.val % 5 {
+            let extra = match c.val % 7 {
+                // beyond what the FAT sectors cover
+                5 => (p.fat.len().saturating_sub(p.nsectors) + 1 + (c.raw as usize % 3)) * p.sector_len.max(512),
+                6 => (p.fat.len().saturating_sub(p.nsectors) + 1) * p.sector_len.max(512) + 100,
                 0 => 1,
                 1 => p.sector_len.max(512) / 2,
                 2 => p.sector_len.max(512),
